@@ -330,17 +330,30 @@ class Rewriter:
                             (pre, v, lo, v, bound, bind, body2, v))
                 text = self._rewrite_counted(text, hdr, build)
             elif frag.startswith('extiter:'):
-                # R9: for X in RECV.ITERFN(ARGS) { B } with ITERFN an `impl Iterator` method ->
+                # R9: for [&]X in RECV.ITERFN(ARGS) { B } with ITERFN an external / `impl Iterator` method ->
                 #     let __ms_X = RECV.VECFN(ARGS); index loop over the collected vector.
                 iterfn, vecfn = frag[len('extiter:'):].split('=')
-                hdr = r'\bfor\s+(\w+)\s+in\s+(.+?)\.' + re.escape(iterfn) + r'\((.*?)\)\s*\{'
+                hdr = r'\bfor\s+(&?)\s*(\w+)\s+in\s+(.+?)\.' + re.escape(iterfn) + r'\((.*?)\)\s*\{'
 
                 def build(mm, body, iterfn=iterfn, vecfn=vecfn):
-                    x, recv, args = mm.group(1), mm.group(2).strip(), mm.group(3)
-                    self.log.append(('R9', 'for %s in %s.%s(%s) -> collected vector %s + index loop' % (x, recv, iterfn, args, vecfn)))
+                    amp, x, recv, args = mm.group(1), mm.group(2), mm.group(3).strip(), mm.group(4)
+                    self.log.append(('R9', 'for %s%s in %s.%s(%s) -> collected vector %s + index loop' % (amp, x, recv, iterfn, args, vecfn)))
                     body = self._with_step(body, '__i_%s += 1;' % x)
-                    return ('let __ms_%s = %s.%s(%s);\n            let mut __i_%s: usize = 0;\n            while __i_%s < __ms_%s.len() {\n                let %s = &__ms_%s[__i_%s];%s    __i_%s += 1;\n            }' %
-                            (x, recv, vecfn, args, x, x, x, x, x, x, body, x))
+                    bind = ('let %s = __ms_%s[__i_%s];' % (x, x, x)) if amp else ('let %s = &__ms_%s[__i_%s];' % (x, x, x))
+                    return ('let __ms_%s = %s.%s(%s);\n            let mut __i_%s: usize = 0;\n            while __i_%s < __ms_%s.len() {\n                %s%s    __i_%s += 1;\n            }' %
+                            (x, recv, vecfn, args, x, x, x, bind, body, x))
+                text = self._rewrite_counted(text, hdr, build)
+            elif frag.startswith('extpairs:'):
+                # R9: for (A, B) in MAPVAR { body } over a borrowed map -> let __ms = MAPVAR.VECFN(); index loop, A/B bound by reference
+                mapvar, vecfn = frag[len('extpairs:'):].split('=')
+                hdr = r'\bfor\s*\(\s*(\w+)\s*,\s*(\w+)\s*\)\s*in\s+' + re.escape(mapvar) + r'\s*\{'
+
+                def build(mm, body, mapvar=mapvar, vecfn=vecfn):
+                    a, b = mm.group(1), mm.group(2)
+                    self.log.append(('R9', 'for (%s, %s) in %s -> collected vector %s + index loop' % (a, b, mapvar, vecfn)))
+                    body = self._with_step(body, '__i_%s += 1;' % a)
+                    return ('let __ms_%s = %s.%s();\n            let mut __i_%s: usize = 0;\n            while __i_%s < __ms_%s.len() {\n                let %s = &__ms_%s[__i_%s].0;\n                let %s = &__ms_%s[__i_%s].1;%s    __i_%s += 1;\n            }' %
+                            (a, mapvar, vecfn, a, a, a, a, a, a, b, a, a, body, a))
                 text = self._rewrite_counted(text, hdr, build)
             elif frag.startswith('zip:'):
                 # R14: for (A, B) in X.iter().zip(Y) { body } -> index loop up to the shorter length
